@@ -369,13 +369,70 @@ Proof.
     + cbn [clark]. rewrite (resolve_local local None Hl). reflexivity.
 Qed.
 
-(* ---- the unguarded round trip is false: one witness per guard clause --------------------- *)
-(* clause clark_uri_ok: is_uri rejects '-' (the xsi namespace) *)
+(* ---- is_uri accepts every plain ASCII namespace name (since fix 7c20cbc: '-' is
+   in the character classes of URI_REGEX) -------------------------------------------------- *)
+Lemma uri_plain_char_in_class c : uri_plain_char c = true -> in_ranges c uri_chars = true.
+Proof.
+  intros H.
+  assert (L : c < 128).
+  { unfold uri_plain_char in H. rewrite !orb_true_iff, !andb_true_iff, !N.leb_le in H.
+    destruct H as [[[H|H]|H]|H]; try lia. apply mem_In in H. cbn in H.
+    repeat (destruct H as [<-|H]; [lia|]). destruct H. }
+  assert (T : forallb (fun c => negb (uri_plain_char c) || in_ranges c uri_chars) (upto 128) = true)
+    by (vm_compute; reflexivity).
+  pose proof (forall_lt _ 128 T c L) as P. cbn beta in P. rewrite H in P. exact P.
+Qed.
+
+Lemma uri_splits_end : forall b a_rev,
+  opt_part uri_part1 (rev a_rev ++ b) = true -> uri_splits a_rev b = true.
+Proof.
+  induction b as [|c t IH]; intros a_rev H.
+  - cbn [uri_splits]. rewrite app_nil_r in H. rewrite H. reflexivity.
+  - cbn [uri_splits]. rewrite (IH (c :: a_rev)); [apply orb_true_r|].
+    cbn [rev]. rewrite <- app_assoc. exact H.
+Qed.
+
+Lemma slashes_chars_all k y :
+  nonempty_all (fun c => in_ranges c uri_chars) y = true -> slashes_chars k y = true.
+Proof. intros H. destruct k; cbn [slashes_chars]; rewrite H; reflexivity. Qed.
+
+Lemma is_uri_accepts_plain u : spec_uri_plain u = true -> is_uri (Some u) = true.
+Proof.
+  unfold spec_uri_plain. intros H. apply andb_true_iff in H as [Hn Hc].
+  destruct u as [|c r]; [discriminate|]. unfold is_uri, uri_search, uri_full.
+  rewrite uri_splits_end; [reflexivity|]. cbn [rev app opt_part]. unfold uri_part1.
+  rewrite slashes_chars_all; [reflexivity|]. unfold nonempty_all.
+  eapply forallb_impl; [|exact Hc]. apply uri_plain_char_in_class.
+Qed.
+
+(* Clark notation round trip for every plain ASCII namespace name *)
+Lemma qname_roundtrip_clark_plain u local :
+  spec_uri_plain u = true -> is_ncname local = true ->
+  qname_deser (qname_text (Some u) local) None = Some (qname_text (Some u) local)
+  /\ qname_ser (qname_text (Some u) local) None = Some (qname_text (Some u) local, None).
+Proof.
+  intros Hu Hl. split; [|reflexivity].
+  assert (G : qname_rt_guard (Some u) local None = true).
+  { unfold qname_rt_guard, qname_rt_inputs_ok, qname_rt_clause_clark, qname_rt_clause_default, clark_uri_ok.
+    rewrite Hl, (is_uri_accepts_plain u Hu). cbn [andb].
+    pose proof Hu as Hu'. unfold spec_uri_plain in Hu'. apply andb_true_iff in Hu' as [Hn Hc].
+    destruct u as [|c r]; [discriminate|].
+    rewrite (forallb_not_mem uri_plain_char 125 (c :: r)); [reflexivity|reflexivity|exact Hc]. }
+  destruct (qname_roundtrip (Some u) local None G) as [s [m' [S D]]].
+  cbn in S. inversion S; subst. exact D.
+Qed.
+
+Example is_uri_accepts_xsi :
+  spec_uri_plain [104;116;116;112;58;47;47;119;119;119;46;119;51;46;111;114;103;47;50;48;48;49;47;88;77;76;83;99;104;101;109;97;45;105;110;115;116;97;110;99;101] = true.
+Proof. vm_compute. reflexivity. Qed.
+
+(* ---- the unguarded round trip is false: one witness per remaining guard clause ----------- *)
+(* clause clark_uri_ok: is_uri only knows ASCII URI references (an IRI here) *)
 Lemma qname_roundtrip_clark_refuted :
   exists u local, is_ncname local = true /\
     forall s m', qname_ser (qname_text (Some u) local) None = Some (s, m') -> qname_deser s m' = None.
 Proof.
-  exists [104;116;116;112;58;47;47;119;119;119;46;119;51;46;111;114;103;47;50;48;48;49;47;88;77;76;83;99;104;101;109;97;45;105;110;115;116;97;110;99;101], [116;121;112;101].
+  exists [117;114;110;58;252], [120].
   split; [vm_compute; reflexivity|]. intros s m' H. vm_compute in H. inversion H; subst. vm_compute. reflexivity.
 Qed.
 
